@@ -5,7 +5,7 @@ tie: paired runs (this file).
 
 Streams
   daily    synthetic daily / billing models (synth_daily) x reporting frames x usage alterations
-           {orig, scaled, shuffled, 30 % NaN, all NaN, dropped}: implementation vs Model/Rows.v (row by row, in Coq)
+           {orig, scaled, negated (x -1.5 + 0.25), shuffled, 30 % NaN, all NaN, dropped}: implementation vs Model/Rows.v (row by row, in Coq)
            AND pairwise (oracle)
   fit      one really fitted daily and one billing model through the public data classes: pairwise
   hourly   really fitted HourlyModel (non-solar and solar), reloaded from JSON for every run: pairwise + outcome and
@@ -37,13 +37,13 @@ logging.disable(logging.CRITICAL)
 
 IMPORTS = ("From Coq Require Import QArith.\nFrom V Require Import Model.Dst Model.DstRun Model.Rows Model.RowsRun "
            "Model.HourlyFlow Model.CounterfactualFlows Model.CounterfactualRun.")
-ALTS = ["orig", "scaled", "shuffled", "nan30", "allnan", "dropped"]
+ALTS = ["orig", "scaled", "negated", "shuffled", "nan30", "allnan", "dropped"]
 HZONES = ["US/Pacific", "US/Eastern", "Europe/Berlin", "Australia/Sydney", "UTC", "Asia/Kolkata"]
 # (zone, month-day of a clock change in 2022) used to aim reporting windows at short / long days
 DST_DATES = {"US/Pacific": ["03-13", "11-06"], "US/Eastern": ["03-13", "11-06"], "Europe/Berlin": ["03-27", "10-30"],
              "Australia/Sydney": ["04-03", "10-02"]}
-DST_POLICIES = {0: "CountObserved (23/25-hour days found from the number of non-null observed cells: unchanged code)",
-                1: "CountRows (23/25-hour days found from the number of rows)"}
+DST_POLICIES = {0: "count_rows = false (23/25-hour days found from the number of non-null observed cells: unchanged code)",
+                1: "count_rows = true (23/25-hour days found from the number of rows)"}
 
 
 # ------------------------------------------------------------------ alterations of the usage column
@@ -56,6 +56,8 @@ def alter(fr, name, seed):
         return a
     if name == "scaled":
         a["observed"] = a["observed"] * [0.5, 3.0, 7.25, 0.125][seed % 4]
+    elif name == "negated":          # net-metered usage: sign and level change
+        a["observed"] = a["observed"] * -1.5 + 0.25
     elif name == "shuffled":
         a["observed"] = r.permutation(a["observed"].to_numpy())
     elif name == "nan30":
@@ -276,10 +278,12 @@ def fit_stream(run, seeds):
             meter2, temp2 = fl.billing_series(rng, tz=tz, start="2022-12-15")
             obs = {}
             r = np.random.default_rng(seed)
-            for name in ["orig", "scaled", "shuffled", "nan30", "allnan"]:
+            for name in ["orig", "scaled", "negated", "shuffled", "nan30", "allnan"]:
                 ms = meter2.copy()
                 if name == "scaled":
                     ms = ms * 2.5
+                elif name == "negated":
+                    ms = ms * -1.5
                 elif name == "shuffled":
                     ms.iloc[:-1] = r.permutation(ms.iloc[:-1].to_numpy())
                 elif name == "nan30":
@@ -445,7 +449,23 @@ def gen_hourly_case(rng, kit, k):
     elif k % 5 == 4:
         mode = "truncated"
     return {"stream": "hourly", "kit_seed": kit.seed, "solar": kit.solar, "tz": kit.tz, "start": start, "ndays": ndays,
-            "mode": mode, "seed": rng.randrange(2**31)}
+            "mode": mode, "tgap": k % 3 == 1, "seed": rng.randrange(2**31)}
+
+
+def labels_used(model, df_in):
+    """the cluster label the run gave every (month, weekday) of the frame: [(month, dow, label | None)], or None"""
+    full = getattr(model, "_processed_meter_data_full", None)
+    if full is None or "temporal_cluster" not in getattr(full, "columns", []) or len(full) != len(df_in):
+        return None
+    t = full[["month", "day_of_week", "temporal_cluster"]].drop_duplicates()
+    out = sorted((int(m), int(d), None if l != l else int(l)) for m, d, l in t.to_numpy())
+    if len({(m, d) for m, d, _ in out}) != len(out):
+        return "ambiguous"
+    return out
+
+
+def coq_ctable(lbl):
+    return coq_list(["((%s, %s), %s)" % (zlit(m), zlit(d), "None" if l is None else "(Some %s)" % zlit(l)) for m, d, l in lbl])
 
 
 def inject_obs(data, values):
@@ -459,6 +479,8 @@ def inject_obs(data, values):
 def run_hourly_case(run, kit, case, pz, state_policy, terms, meta):
     rng = random.Random(case["seed"])
     rep = fl.hourly_frame(rng, tz=case["tz"], start=case["start"], ndays=case["ndays"], ghi=case["solar"])
+    if case.get("tgap"):    # hours without a temperature reading (the data class interpolates them from the temperature column)
+        rep.loc[np.random.default_rng(case["seed"] + 1).random(len(rep)) < 0.05, "temperature"] = np.nan
     variants = []   # (name, path, builder of the data object)
     for name in ALTS:
         a = alter(rep, name, case["seed"] % 1000 + ALTS.index(name))
@@ -508,6 +530,7 @@ def run_hourly_case(run, kit, case, pz, state_policy, terms, meta):
         o = observe(lambda: model.predict(data, ignore_disqualification=True))
         o["df_in"] = df_in
         o["path"] = path
+        o["labels"] = labels_used(model, df_in)
         obs[name] = o
         skel[name] = skeleton(df_in)
         run.count((vlib.sha(case), name))
@@ -543,7 +566,7 @@ def run_hourly_case(run, kit, case, pz, state_policy, terms, meta):
     # the statement's guard is about the FITTED model; a table truncated by an earlier predict is the code's doing
     guard_ok = fitted_covered and case["mode"] != "truncated"
     pairwise(run, "hourly", obs, {"stream": "fitted", "model_use": case["mode"], "solar": case["solar"]},
-             dict(case, variants=names), classify=classify, guard_ok=guard_ok and same_wc)
+             dict(case, variants=names), classify=classify, guard_ok=guard_ok)
     if not same_wc:
         run.corr_failures.append({"stream": "hourly", "case": case, "impl": "data.df differs between variants in index or temperature"})
         return
@@ -559,11 +582,41 @@ def run_hourly_case(run, kit, case, pz, state_policy, terms, meta):
         vts.append("(%s, %s, %s)" % (coq_pats(skel[n]), oc, coq_bool(same)))
     terms.append("(%s, %s, %s, %s)" % (zlit(pz), coq_table(table), coq_days(base_days), coq_list(vts)))
     meta.append((case, names))
+    # ---- Coq: the cluster labels each run used, against cluster_stage
+    for n in names:
+        lbl = obs[n].get("labels")
+        if lbl is None or not obs[n]["ok"]:
+            continue
+        if lbl == "ambiguous":
+            run.corr_failures.append({"stream": "labels", "case": case, "variant": n, "impl": "two labels for one (month, weekday)"})
+            continue
+        LABEL_TERMS.append("(%s, %s, %s, %s)" % (coq_table(tables[n]), coq_days(base_days), coq_pats(skel[n]), coq_ctable(lbl)))
+        LABEL_META.append(dict(case, variant=n))
     # the table the model object holds after a predict on a covered frame (StoreBack): Model/HourlyFlow.v table_after
     if len(run.cov["samples"]) < 5:
         run.sample({"stream": "hourly", "tz": case["tz"], "start": case["start"], "days": len(base_days), "mode": case["mode"],
                     "short_days": n_short, "long_days": n_long, "table_covers": covered,
                     "outcomes": {n: ("ok" if obs[n]["ok"] else obs[n]["err"]) for n in names}})
+
+
+LABEL_TERMS, LABEL_META = [], []
+
+
+def labels_stream(run):
+    terms, meta = list(LABEL_TERMS), list(LABEL_META)
+    del LABEL_TERMS[:], LABEL_META[:]
+    if not terms:
+        return
+    bad = run.coq_cases("labels", IMPORTS, "", terms, "check_labels", shard=max(4, len(terms) // 12 + 1),
+                        case_type="(table * list hfday * list obspat * ctable)%type")
+    if bad is None:
+        run.proof_ok = False
+        return
+    for i in bad[:3]:
+        run.corr_failures.append({"stream": "labels", "case": meta[i],
+                                  "model": run.coq_eval(IMPORTS, "", "show_labels %s" % terms[i])[-800:]})
+    for i in bad[3:]:
+        run.corr_failures.append({"stream": "labels", "case": meta[i]})
 
 
 def hourly_stream(run, kits, cases_by_kit, pz, state_policy):
@@ -583,6 +636,7 @@ def hourly_stream(run, kits, cases_by_kit, pz, state_policy):
                                   "model": run.coq_eval(IMPORTS, "", "show_hf %s" % terms[i])[-1500:]})
     for i in bad[3:]:
         run.corr_failures.append({"stream": "hourly", "case": meta[i][0]})
+    labels_stream(run)
 
 
 def table_after_stream(run, kit, state_policy, n):
@@ -615,6 +669,40 @@ def table_after_stream(run, kit, state_policy, n):
         return
     for i in bad:
         run.corr_failures.append({"stream": "table_after", "case": meta[i]})
+
+
+def calendar_repair_stream(run, kit, n):
+    """frames without usage on a stored table that misses some of their (month, weekday) combinations: the labels the
+    implementation falls back to (unstack / ffill / bfill) against Model/HourlyFlow.v calendar_fill"""
+    rng = random.Random(kit.seed + 13)
+    for k in range(n):
+        start = (pd.Timestamp("2022-06-01") + pd.Timedelta(days=rng.randrange(0, 60))).strftime("%Y-%m-%d")   # no clock change
+        ndays = rng.choice([3, 8, 20, 45])
+        rep = fl.hourly_frame(rng, tz=kit.tz, start=start, ndays=ndays, ghi=kit.solar).drop(columns=["observed"])
+        data = fl.hourly_reporting(rep)
+        days = skeleton(data.df)
+        if days is None:
+            continue
+        cs = combos(days)
+        p = rng.choice([0.2, 0.5, 0.8])
+        drop = {c for c in cs if rng.random() < p}
+        if k % 4 == 3:      # a whole month unknown
+            drop |= {c for c in cs if c[0] == cs[-1][0]}
+        model = kit.fresh(drop)
+        table = table_of(model)
+        o = observe(lambda: model.predict(data, ignore_disqualification=True))
+        run.count(("calendar_repair", kit.seed, k), nontrivial=bool(drop))
+        run.dist("calendar_repair", "ok" if o["ok"] else o["err"])
+        lbl = labels_used(model, data.df) if o["ok"] else None
+        if lbl is None or lbl == "ambiguous":
+            run.corr_failures.append({"stream": "labels", "case": {"stream": "calendar_repair", "start": start, "ndays": ndays,
+                                                                     "drop": sorted(drop)}, "impl": o.get("err", lbl)})
+            continue
+        run.dist("calendar_repair_labels", "missing=%d of %d, left NaN=%d" % (len(drop), len(cs), sum(1 for x in lbl if x[2] is None)))
+        LABEL_TERMS.append("(%s, %s, %s, %s)" % (coq_table(table), coq_days(days), coq_pats(days), coq_ctable(lbl)))
+        LABEL_META.append({"stream": "calendar_repair", "kit_seed": kit.seed, "tz": kit.tz, "start": start, "ndays": ndays,
+                           "drop": sorted(drop)})
+    labels_stream(run)
 
 
 # ================================================================== CalTRACK hourly
@@ -670,7 +758,7 @@ def corpus_cases():
 def main():
     run = Run("C05")
     run.cov["rule"] = (
-        "paired runs: every reporting set is predicted with its usage column {unchanged, scaled, shuffled, 30 % NaN, all NaN, "
+        "paired runs: every reporting set is predicted with its usage column {unchanged, scaled, negated, shuffled, 30 % NaN, all NaN, "
         "dropped} (+ hourly: gaps written into the data object: 30 % / one cell / one local day) and all pairs are compared "
         "bit-wise on the timestamps predicted in both. daily/billing: synthetic documents (1-6 sub-models, dyadic coefficients) x "
         "frames of 1-250 local days, 5 zones, NaN/inf temperatures, injected or through the data class, each variant also "
@@ -696,13 +784,13 @@ def main():
         "oracle contracts of Model/HourlyFlow.v: regression returns 24 values per date; feature maps read weather and cluster label only",
     ]
     run.check_proofs("Properties/C05.v", ["Proofs/HourlyFlowProofs.v", "Proofs/CounterfactualProofs.v"])
-    run.ensure_models(["Model/CounterfactualRun.v", "Model/CasesLib.v"])
+    # Properties/C05.v imports Model/CounterfactualRun.v (and through it Model/CasesLib.v): what the cases need is built
 
     pz, got = detect_dst_policy()
     run.cov["dst_counting_detected"] = DST_POLICIES.get(pz, "unrecognised: %s" % (got,))
     run.log("DST counting of the implementation:", run.cov["dst_counting_detected"])
     if pz is None:
-        run.corr_failures.append({"stream": "policy-probe", "impl": str(got), "model": "no dst_policy of Model/HourlyFlow.v explains the probe"})
+        run.corr_failures.append({"stream": "policy-probe", "impl": str(got), "model": "no counting policy of Model/Dst.v explains the probe"})
         pz = 0
 
     if run.replay:
@@ -711,7 +799,7 @@ def main():
     else:
         todo = None
 
-    nh = run.n(10, 120)
+    nh = run.n(10, 60)
     kits = []
     seeds = [run.rng.randrange(2**31) for _ in range(8)]
     if todo is None:
@@ -725,7 +813,7 @@ def main():
     run.cov["cluster_table_after_predict_detected"] = state_policy
     run.log("cluster table after predict:", state_policy)
     if pz == 0:
-        run.cov["theorem_path"] = ("non-null usage cells counted: C05_hourly_statement CountObserved is REFUTED (C05_hourly_ni_refuted, "
+        run.cov["theorem_path"] = ("non-null usage cells counted: C05_hourly_statement count_observed is REFUTED (C05_hourly_ni_refuted, "
                                    "witness replayed from corpus/C05.json); C05_hourly_ni_partial / _fully_observed_partial / "
                                    "_blank_regular_partial give the guards")
     else:
@@ -757,15 +845,16 @@ def main():
 
     hc = [[gen_hourly_case(run.rng, kit, k) for k in range(nh // 2 + (nh % 2 if i == 0 else 0))] for i, kit in enumerate(kits)]
     hourly_stream(run, kits, hc, pz, state_policy)
-    table_after_stream(run, kits[0], state_policy, run.n(6, 60))
+    table_after_stream(run, kits[0], state_policy, run.n(6, 40))
+    calendar_repair_stream(run, kits[0], run.n(8, 60))
     run.log("hourly done")
-    daily_stream(run, [gen_daily_case(run.rng, k) for k in range(run.n(140, 6000))])
+    daily_stream(run, [gen_daily_case(run.rng, k) for k in range(run.n(120, 2000))])
     run.log("daily/billing synthetic done")
     fit_stream(run, [("daily", seeds[2]), ("billing", seeds[3])] if run.quick() else
-               [(k, run.rng.randrange(2**31)) for k in ["daily", "billing"] * 8])
+               [(k, run.rng.randrange(2**31)) for k in ["daily", "billing"] * 4])
     run.log("fitted daily/billing done")
-    for i in range(run.n(1, 6)):
-        caltrack_stream(run, seeds[4] + i, run.n(10, 40))
+    for i in range(run.n(1, 3)):
+        caltrack_stream(run, seeds[4] + i, run.n(10, 30))
     run.finish()
 
 
